@@ -14,6 +14,7 @@ import (
 	"sort"
 	"syscall"
 	"time"
+	"unsafe"
 
 	"verifsim/simrt"
 )
@@ -137,6 +138,22 @@ type File struct {
 	closed bool
 	wrote  bool
 	app    bool
+	direct bool // opened through simdirectio: O_DIRECT is not set (tmpfs), its alignment rules are enforced here
+}
+
+// SetDirect marks the handle as a direct-I/O handle (used by simdirectio).
+func (f *File) SetDirect() { f.direct = true }
+
+// directAlign is the granularity the simulated O_DIRECT demands of buffer address, length and file offset. Real
+// devices demand their logical block size (512 or 4096 bytes); the smaller value is used so that nothing is
+// rejected that some real device would accept.
+const directAlign = 512
+
+func misaligned(p []byte, off int64) bool {
+	if len(p) == 0 {
+		return false
+	}
+	return len(p)%directAlign != 0 || off%directAlign != 0 || uintptr(unsafe.Pointer(&p[0]))%directAlign != 0
 }
 
 // Real returns the underlying *os.File (used by simmmap and the harness).
@@ -210,6 +227,10 @@ func (f *File) Write(p []byte) (int, error) {
 		if fi, e := f.f.Stat(); e == nil {
 			off = fi.Size()
 		}
+	}
+	if f.direct && misaligned(p, off) {
+		f.w.Probe("direct-io-misaligned-write-rejected")
+		return 0, &fs.PathError{Op: "write", Path: f.f.Name(), Err: syscall.EINVAL}
 	}
 	if ft, ok := f.w.CheckFault("write", f.rel); ok {
 		n := 0
